@@ -586,7 +586,10 @@ func StdTemplate(id string) *corev1.PodTemplateSpec {
 				Affinity: &corev1.Affinity{NodeAffinity: &corev1.NodeAffinity{RequiredDuringSchedulingIgnoredDuringExecution: &corev1.NodeSelector{
 					NodeSelectorTerms: []corev1.NodeSelectorTerm{
 						{MatchExpressions: []corev1.NodeSelectorRequirement{req}},
-						{MatchExpressions: []corev1.NodeSelectorRequirement{req, {Key: FitLabelPrefix + id, Operator: corev1.NodeSelectorOpExists}}},
+						// the second term also excludes a (non-existent) node by name: a node-name field requirement with another operator
+						// than In, which the pinning has to replace, not merely re-point
+						{MatchExpressions: []corev1.NodeSelectorRequirement{req, {Key: FitLabelPrefix + id, Operator: corev1.NodeSelectorOpExists}},
+							MatchFields: []corev1.NodeSelectorRequirement{{Key: "metadata.name", Operator: corev1.NodeSelectorOpNotIn, Values: []string{"verif-no-such-node"}}}},
 					}}}},
 				// ... and one of the default DaemonSet toleration keys with another effect (it does not cover the default entry)
 				Tolerations: []corev1.Toleration{{Key: "verif.local/other", Operator: corev1.TolerationOpExists, Effect: corev1.TaintEffectNoSchedule},
